@@ -59,6 +59,38 @@ func (c *Ctx) ecmaAnalysis() (*pta.Analysis, *ssa.Function) {
 	return a, exec
 }
 
+// jsonRoundTrip is the shape test of the JSON round trip, for one json.Unmarshal call um: the variable(s) it fills
+// are local variables (dsts; the address may have travelled through parameters inside scope) and the bytes it decodes
+// are, whatever the path, the first result of a json.Marshal call (marshals).  ok is false when either is not so.
+func jsonRoundTrip(um *ssa.Call, scope []*ssa.Function) (dsts []*ssa.Alloc, marshals []*ssa.Call, ok bool) {
+	if ssau.CalleeName(um) != "encoding/json.Unmarshal" || len(um.Common().Args) != 2 {
+		return nil, nil, false
+	}
+	for _, t := range deepDefs(um.Common().Args[1], scope) {
+		a, isAl := t.(*ssa.Alloc)
+		if !isAl {
+			return nil, nil, false
+		}
+		dsts = append(dsts, a)
+	}
+	srcs := deepDefs(um.Common().Args[0], scope)
+	for _, s := range srcs {
+		ex, isEx := s.(*ssa.Extract)
+		if !isEx || ex.Index != 0 {
+			return nil, nil, false
+		}
+		m, isCall := ex.Tuple.(*ssa.Call)
+		if !isCall || ssau.CalleeName(m) != "encoding/json.Marshal" {
+			return nil, nil, false
+		}
+		marshals = append(marshals, m)
+	}
+	if len(srcs) == 0 || len(dsts) == 0 {
+		return nil, nil, false
+	}
+	return dsts, marshals, true
+}
+
 // canonFresh: core.Canonicalize qualifies as a per-call-site fresh-result
 // function if its non-nil result is only ever the variable that json.Unmarshal
 // filled from bytes produced by json.Marshal in the same call.  The round trip
@@ -79,30 +111,19 @@ func (c *Ctx) canonFresh() map[*ssa.Function]bool {
 				return
 			}
 			unmarshals++
-			// the variable that is filled: a local of Canonicalize (its address may have come in as a parameter)
-			for _, t := range deepDefs(cl.Common().Args[1], scope) {
-				a, isAl := t.(*ssa.Alloc)
-				if !isAl || a.Parent() != canon || (al != nil && al != a) {
+			// the variable that is filled: a local of Canonicalize (its address may have come in as a parameter);
+			// the bytes that are decoded: what json.Marshal returned in this call
+			dsts, _, ok := jsonRoundTrip(cl, scope)
+			if !ok {
+				fromMarshal = false
+				return
+			}
+			for _, a := range dsts {
+				if a.Parent() != canon || (al != nil && al != a) {
 					fromMarshal = false
 					return
 				}
 				al = a
-			}
-			// the bytes that are decoded: what json.Marshal returned in this call
-			srcs := deepDefs(cl.Common().Args[0], scope)
-			for _, s := range srcs {
-				ex, isEx := s.(*ssa.Extract)
-				if !isEx || ex.Index != 0 {
-					fromMarshal = false
-					return
-				}
-				m, isCall := ex.Tuple.(*ssa.Call)
-				if !isCall || ssau.CalleeName(m) != "encoding/json.Marshal" {
-					fromMarshal = false
-				}
-			}
-			if len(srcs) == 0 {
-				fromMarshal = false
 			}
 		})
 	}
